@@ -4,6 +4,10 @@ Observables compared exactly with the extracted model (property 2 of the driver)
   op 1  NPDA.read_input_stepwise : every yielded set of configurations (as a sorted set) + how the generator ends
   op 2  DPDA.read_input_stepwise : every yielded configuration + how the generator ends
   op 3  DPDA constructor         : which exception (if any) validate() raises
+  op 4  fuel sufficiency         : eps_ranked / pda_fuel_bound of the model for a state ranking the harness finds on the
+                                   table (every empty-string move pops, or keeps the height and climbs the ranking);
+                                   on such tables the implementation's generator must end within bound + 1 yields
+                                   (theorems C02_npda_total_for_ranked / C02_dpda_total_for_ranked)
 plus accepts_input for both classes and, on the implementation alone, DPDA verdict == NPDA verdict on the same table.
 The implementation is always driven under a step budget (number of yields, size of a level, wall clock) so a table
 whose empty-string moves run forever cannot hang the check; the model is then run on exactly that many steps of fuel.
@@ -198,6 +202,41 @@ def start_accepting_with_lambda(ddef, word):
     return acc and z0 in ddef["transitions"].get(q0, {}).get("", {})
 
 
+# ---------------------------------------------------------------- state rankings (fuel sufficiency)
+def find_ranking(ddef, npda):
+    """A ranking of the states under which the table is `eps_ranked` (Spec/PDARank.v), found on the table alone:
+    every empty-string move pushes at most one symbol, and the moves that push exactly one form an acyclic graph;
+    rank = longest path to the state. Returns ({state: rank}, N) or None when no ranking exists."""
+    names, _, _ = table_names(ddef, npda)
+    succ = {q: set() for q in names}
+    for q, row in ddef["transitions"].items():
+        for z, e in row.get("", {}).items():
+            for (t, push) in (e if npda else [e]):
+                k = len(push_syms(push))
+                if k >= 2:
+                    return None
+                if k == 1:
+                    succ[q].add(t)
+    indeg = {q: 0 for q in names}
+    for q in names:
+        for t in succ[q]:
+            indeg[t] += 1
+    rank = {q: 0 for q in names}
+    todo = [q for q in names if indeg[q] == 0]
+    seen = 0
+    while todo:
+        q = todo.pop()
+        seen += 1
+        for t in succ[q]:
+            rank[t] = max(rank[t], rank[q] + 1)
+            indeg[t] -= 1
+            if indeg[t] == 0:
+                todo.append(t)
+    if seen != len(names):
+        return None
+    return rank, max(rank.values(), default=0)
+
+
 # ---------------------------------------------------------------- one table, several words
 def run_reader(ctx, ddef, npda, words, cap, size_cap, tag):
     """Compare one reader class on one table with the model, word by word. Returns {word: verdict or None}."""
@@ -212,10 +251,29 @@ def run_reader(ctx, ddef, npda, words, cap, size_cap, tag):
         fuel = len(ys) + 1 if out is not None else len(ys) - 1
         runs.append((w, ys, out, it, fuel))
         items.append((2, 1 if npda else 2, enc.tree([ttree, cd.sy.word(w), fuel])))
+    ranking = find_ranking(ddef, npda)
+    if ranking is None:
+        rk_list, rk_n = [0] * len(cd.st), 0
+    else:
+        rk_list, rk_n = [ranking[0][q] for q in cd.st.names], ranking[1]
+    items += [(2, 4, enc.tree([ttree, rk_list, rk_n, cd.sy.word(w)])) for w in words]
     answers = ctx.driver.batch(items)
+    answers, bounds = answers[:len(runs)], answers[len(runs):]
+    ctx.tally("table_ranked" if ranking is not None else "table_not_ranked")
     verdicts = {}
-    for (w, ys, out, it, fuel), ans in zip(runs, answers):
+    for (w, ys, out, it, fuel), ans, bd in zip(runs, answers, bounds):
         problems = []
+        if bd == [0, enc.BAD_INPUT]:
+            raise RuntimeError("driver rejected the ranking encoding of " + repr(ddef))
+        m_ranked, m_bound = bd[0] == 1, bd[1]
+        if m_ranked != (ranking is not None):
+            problems.append(f"model eps_ranked = {m_ranked} but the harness {'found the ranking ' + repr(ranking) if ranking else 'finds no ranking'}")
+        if m_ranked:
+            # fuel sufficiency theorem, observed on the implementation: the generator ends within bound + 1 yields
+            if len(ys) > m_bound + 1:
+                problems.append(f"ranked table (N = {rk_n}): {len(ys)} yields exceed the proved bound {m_bound} + 1")
+            elif out is not None:
+                ctx.tally("ranked_ended_within_bound")
         if ans == [0, enc.BAD_INPUT]:
             raise RuntimeError("driver rejected the encoding of " + repr(ddef))
         m_ys, m_out, m_acc = ans[0], enc.dec_res(ans[1]), enc.dec_res(ans[2])
